@@ -38,6 +38,16 @@ PAIRS = [
     ("T", "G", Fraction(10000), Fraction(0)),
     ("G", "T", Fraction(1, 10000), Fraction(0)),
 ]
+# units whose table value is held as a NumPy float64 scalar (the Planck units): under NumPy 2 such a factor promotes narrow
+# floats unless the conversion casts it - the width rules hold for them as for every other unit.  (The factor is read from the
+# library: this pair judges widths, warnings and route agreement; the VALUE of the Planck length is C02/C15's business.)
+try:
+    from unyt.unit_object import Unit as _U
+
+    _LPL = Fraction(float(_U("l_pl").base_value))
+    PAIRS += [("l_pl", "m", _LPL, Fraction(0)), ("m", "l_pl", 1 / _LPL, Fraction(0))]
+except Exception:  # noqa: BLE001
+    _LPL = None
 BASE_PAIRS = {  # routes without an explicit target: unit -> (target name, factor)
     "in_base": {"km": ("m", Fraction(1000)), "m": ("m", Fraction(1)), "mile": ("m", Fraction(1609344, 1000)), "ft": ("m", Fraction(3048, 10000)), "degC": None,
                 "T": ("T", Fraction(1)), "G": ("T", Fraction(1, 10000))},
@@ -469,6 +479,8 @@ BIN = {
     "equal": (np.equal, lambda a, b: a == b),
 }
 BIN_PAIRS = [("km", "m", Fraction(1, 1000)), ("m", "km", Fraction(1000)), ("ft", "inch", Fraction(1, 12))]  # right operand -> left unit
+if _LPL is not None:
+    BIN_PAIRS.append(("m", "l_pl", _LPL))
 BIN_VALS = {"i": ([3, 100, 7], [25, 3, 12]), "u": ([3, 100, 7], [25, 3, 12]), "f": ([3.0, 100.5, -7.25], [25.0, 3.5, 12.0]), "c": ([3 + 1j, 100.5j, -7.25], [25.0 + 2j, 3.5, 12.0j])}
 
 
